@@ -4,6 +4,7 @@
 #include <cstdlib>
 #include <vector>
 #include <string>
+extern "C" size_t __sanitizer_get_current_allocated_bytes(void);   // exported by the AddressSanitizer runtime
 #include "cap.hpp"
 #include "typescap.h"
 #include "wrapcap.h"
@@ -30,7 +31,7 @@ int main() {
       else if (a == 2) { CAP_Other c; if (b % 2) CAP_Other_ctor(&c); else CAP_make_other(&c); h.cap.addr = c.addr; h.cap.idtor = c.idtor; }
       else if (a == 3) { CAP_newints_bufferify(&h.arr, 3 + b % 4); }
       else if (a == 5) { h.type = 1; CAP_Obj c; CAP_acquire(b, &c); h.cap.addr = c.addr; h.cap.idtor = c.idtor; }
-      else { CAP_Obj t; CAP_borrow(1, &t); CAP_name_bufferify(&t, &h.arr); }
+      else { CAP_Obj t; CAP_borrow(b & 3, &t); CAP_name_bufferify(&t, &h.arr); }
       hs.push_back(h);
     } else if (!std::strcmp(cmd, "borrow")) {   // a: pool index ; b: 0 object, 1 array
       H h; std::memset(&h, 0, sizeof h);
@@ -49,14 +50,19 @@ int main() {
       if (h.type == 1) { CAP_Obj c; c.addr = h.cap.addr; c.idtor = h.cap.idtor; CAP_Obj_delete(&c); h.cap.addr = c.addr; h.cap.idtor = c.idtor; }
       else if (h.type == 2) { CAP_Other c; c.addr = h.cap.addr; c.idtor = h.cap.idtor; CAP_Other_delete(&c); h.cap.addr = c.addr; h.cap.idtor = c.idtor; }
       else { std::printf("op %d badop\n", opno); std::fflush(stdout); return 3; }
-    } else if (!std::strcmp(cmd, "release")) {
+    } else if (!std::strcmp(cmd, "release") || !std::strcmp(cmd, "copyfree")) {
+      // release: the generated release function; copyfree (string result): the copy-out helper copies and releases
       H &h = hs.at(a);
-      int was_ints = (h.type == 3 && capsule(h)->idtor != 0 && capsule(h)->addr != 0);
-      CAP_SHROUD_memory_destructor(capsule(h));
+      int owned = (capsule(h)->idtor != 0 && capsule(h)->addr != 0);
+      int was_ints = (h.type == 3 && owned);
+      size_t before = __sanitizer_get_current_allocated_bytes();
+      if (!std::strcmp(cmd, "release")) CAP_SHROUD_memory_destructor(capsule(h));
+      else { char buf[64]; CAP_ShroudCopyStringAndFree(&h.arr, buf, sizeof buf); }
+      size_t after = __sanitizer_get_current_allocated_bytes();
       if (was_ints) --counters.ints_live;
-    } else if (!std::strcmp(cmd, "copyfree")) { // string result: the copy-out helper copies and releases
-      H &h = hs.at(a); char buf[64];
-      CAP_ShroudCopyStringAndFree(&h.arr, buf, sizeof buf);
+      // the released handle is cleared (this is what makes a second release a no-op) and a caller-owned heap result was given back
+      if (capsule(h)->addr != 0 || capsule(h)->idtor != 0) { std::printf("op %d notcleared\n", opno); std::fflush(stdout); return 5; }
+      if (owned && (h.type == 3 || h.type == 4) && !(after < before)) { std::printf("op %d notfreed\n", opno); std::fflush(stdout); return 5; }
     } else if (!std::strcmp(cmd, "copy")) {
       H h = hs.at(a); hs.push_back(h);
     } else { std::printf("op %d badop\n", opno); std::fflush(stdout); return 3; }
